@@ -184,7 +184,7 @@ template<class T> static void chk1(T x, T& an, T& ar, T& lf) {
     T r = Math::atand(x);
     if (std::isnan(x)) { if (!std::isnan(r)) bad("atand", "NaN must give NaN"); }
     else {
-      if (!samebits(Math::atand(-x), -r)) bad("atand-odd", "atand(-x) != -atand(x)");
+      if (!(errUlps<T>(Math::atand(-x), -(W) r) <= 4.0)) bad("atand-accuracy", "atand(-x) is not -atand(x) to round-off");
       if (x == 0) { if (!samebits(r, x)) bad("atand-special", "atand(±0) must be ±0"); }
       else if (std::fabs(x) == 1) { if (r != std::copysign(T(45), x)) bad("atand-special", "atand(±1) must be ±45, got " + fmt(r)); }
       else if (std::fabs(x) == inf) { if (r != std::copysign(T(90), x)) bad("atand-special", "atand(±inf) must be ±90, got " + fmt(r)); }
@@ -262,8 +262,8 @@ template<class T> static void op_gatan2d(const Args& a) {
   if (std::fabs(x) == std::fabs(y) && x != 0 && !samebits(r, std::copysign(T(std::signbit(x) ? 135 : 45), y))) bad("atan2d-axes", "diagonal: got " + fmt(r));
   if (std::isinf(x) && std::isfinite(y) && !samebits(r, std::signbit(x) ? std::copysign(T(180), y) : std::copysign(T(0), y))) bad("atan2d-axes", "x = ±inf: got " + fmt(r));
   if (std::isinf(y) && std::isfinite(x) && !samebits(r, std::copysign(T(90), y))) bad("atan2d-axes", "y = ±inf: got " + fmt(r));
-  // odd in y
-  if (!samebits(Math::atan2d(-y, x), -r)) bad("atan2d-odd", "atan2d(-y, x) != -atan2d(y, x)");
+  // odd in y (to round-off; exactly on the axes, which is covered above)
+  if (!(errUlps<T>(Math::atan2d(-y, x), -(W) r) <= 4.0)) bad("atan2d-accuracy", "atan2d(-y, x) is not -atan2d(y, x) to round-off");
   if (samebits(x, T(1)) && !samebits(Math::atand(y), r)) bad("atand-vs-atan2d", "atand(y) != atan2d(y, 1)");
 }
 static Reg r_gatan2d("gatan2d", [](const Args& a) {
@@ -319,7 +319,7 @@ template<class T> static void op_gtaupf(const Args& a) {
       // condition number of atanh at es*x (the product is rounded before atanh sees it); atan is well conditioned
       W ex = (W) es * (W) xx, cond = es > 0 && ex != 0 ? w_fabs(ex / ((1 - ex * ex) * w_atanh(ex))) : W(1);
       if (std::fabs(ea) >= std::numeric_limits<T>::min() && !(e <= 4.0 + 2 * (double) cond)) bad("eatanhe", "err ulps=" + fmtd(e));
-      if (!samebits(Math::eatanhe(-xx, es), -ea)) bad("eatanhe-odd", "eatanhe(-x) != -eatanhe(x)");
+      if (!(errUlps<T>(Math::eatanhe(-xx, es), -ref) <= 4.0 + 2 * (double) cond || std::fabs(ea) < std::numeric_limits<T>::min())) bad("eatanhe", "eatanhe(-x) is not -eatanhe(x) to round-off");
     }
   }
   if (!std::isfinite(tau) && !std::isnan(tau)) { if (!samebits(tp, tau)) bad("taupf-inf", "taupf(±inf) must be ±inf"); }
@@ -341,9 +341,13 @@ template<class T> static void op_gtaupf(const Args& a) {
     if (tau != 0 && std::fabs(tau) >= std::numeric_limits<T>::min() / eps && !(rel <= 64 * eps * cnd))
       bad("tauf-taupf", "relative error " + fmt(rel) + (lowguess ? " class=early-exit-on-low-order-guess" : ""));
     if (tau == 0 && back != 0) bad("tauf-taupf", "zero not preserved");
-    // both maps are odd
-    if (tau != 0 && !samebits(Math::taupf(-tau, es), -tp)) bad("taupf-odd", "taupf(-tau) != -taupf(tau)");
-    if (tp != 0 && !samebits(Math::tauf(-tp, es), -back)) bad("tauf-odd", "tauf(-taup) != -tauf(taup)");
+    // both maps are odd (to the same tolerances; bitwise symmetry is not part of the property)
+    if (!(w_fabs((W) Math::taupf(-tau, es) + ref) <= tol)) bad("taupf-closed-form", "taupf(-tau) differs from -(closed form)");
+    {
+      T back2 = Math::tauf(-tp, es), rel2 = std::fabs(back2 + tau) / std::fmax(std::fabs(tau), std::numeric_limits<T>::min());
+      if (tau != 0 && std::fabs(tau) >= std::numeric_limits<T>::min() / eps && !(rel2 <= 64 * eps * cnd))
+        bad("tauf-taupf", "relative error " + fmt(rel2) + " at the mirrored argument" + (lowguess ? " class=early-exit-on-low-order-guess" : ""));
+    }
   }
 }
 static Reg r_gtaupf("gtaupf", [](const Args& a) {
@@ -561,6 +565,8 @@ template<class T> static void gen_T(Rng& r, long n) {
       T tau = std::ldexp((T) r.range(1, 2), r.irange(-60, 60)) * (r.coin() ? 1 : -1);
       if (i % 34 == 0) tau = (T) r.pick(std::vector<double>{0.0, -0.0, INFINITY, -INFINITY, 70, -70, 71, -71, 1e8, -1e8, 2e8, -2e8, 1e9, -1e9});
       stratum("taupf-" + tg); run("gtaupf", {tg, tok(tau), tok(es)});
+      // deterministic witness of the open finding on Math::tauf (early exit on the low-order guess), double
+      if (i % 1000 == 0 && tg == "d") { stratum("taupf-d-extreme-eccentricity"); run("gtaupf", {tg, tok(T(270000)), tok(T(0.9999999))}); }
     }
     if (i % 20 == 0) {
       int N = r.irange(-1, 8); Args pa = {tg, std::to_string(N), tok(i % 60 == 0 ? special_or<T>(r, T(1)) : std::ldexp((T) r.range(-2, 2), r.irange(-8, 8)))};
